@@ -1,8 +1,15 @@
+// h_c43: correspondence harness for C43 (OTLP -> Prometheus conversion).
+// Stream L drives the real convertBucketsLayout (export shim VerifConvertBucketsLayoutC43);
+// stream M pushes one generated OTLP metric through the real PrometheusConverter.FromMetrics
+// into a recording AppenderV2 and records every appended sample / native histogram.
 package main
 
 import (
 	"context"
 	"fmt"
+	"math"
+	"strconv"
+	"strings"
 
 	"go.opentelemetry.io/collector/pdata/pcommon"
 	"go.opentelemetry.io/collector/pdata/pmetric"
@@ -11,44 +18,600 @@ import (
 	"github.com/prometheus/prometheus/model/labels"
 	"github.com/prometheus/prometheus/storage"
 	prw "github.com/prometheus/prometheus/storage/remote/otlptranslator/prometheusremotewrite"
+
+	"verif/harness/internal/gallina"
+	"verif/harness/internal/gen"
 )
 
+const defectShape = "convert-buckets-empty-leading-target"
+
+// ---------- recording appender ----------
+
 type rec struct {
-	ls    labels.Labels
-	st, t int64
-	v     float64
-	h     *histogram.Histogram
+	name, le string
+	hasLe    bool
+	nLabels  int
+	st, t    int64
+	v        float64
+	h        *histogram.Histogram
 }
 type app struct{ recs []rec }
 
-func (a *app) Append(ref storage.SeriesRef, ls labels.Labels, st, t int64, v float64, h *histogram.Histogram, fh *histogram.FloatHistogram, opts storage.AppendV2Options) (storage.SeriesRef, error) {
-	a.recs = append(a.recs, rec{ls, st, t, v, h})
+func (a *app) Append(_ storage.SeriesRef, ls labels.Labels, st, t int64, v float64, h *histogram.Histogram, fh *histogram.FloatHistogram, _ storage.AppendV2Options) (storage.SeriesRef, error) {
+	r := rec{name: ls.Get("__name__"), le: ls.Get("le"), hasLe: ls.Has("le"), nLabels: ls.Len(), st: st, t: t, v: v}
+	if h != nil {
+		r.h = h.Copy()
+	}
+	if fh != nil {
+		panic("float histogram appended")
+	}
+	a.recs = append(a.recs, r)
 	return 1, nil
 }
 func (a *app) Commit() error   { return nil }
 func (a *app) Rollback() error { return nil }
 
-func main() {
-	s, d := prw.VerifConvertBucketsLayoutC43([]uint64{0, 0, 5, 7}, 0, 1, true)
-	fmt.Println("direct:", s, d)
+// ---------- Gallina printers ----------
 
-	md := pmetric.NewMetrics()
-	m := md.ResourceMetrics().AppendEmpty().ScopeMetrics().AppendEmpty().Metrics().AppendEmpty()
-	m.SetName("h")
-	eh := m.SetEmptyExponentialHistogram()
-	eh.SetAggregationTemporality(pmetric.AggregationTemporalityCumulative)
-	dp := eh.DataPoints().AppendEmpty()
-	dp.SetScale(9)
-	dp.SetCount(12)
-	dp.SetSum(100)
-	dp.SetTimestamp(pcommon.Timestamp(5_000_000))
-	dp.Positive().SetOffset(0)
-	dp.Positive().BucketCounts().FromRaw([]uint64{0, 0, 5, 7})
-	a := &app{}
-	c := prw.NewPrometheusConverter(a)
-	an, err := c.FromMetrics(context.Background(), md, prw.Settings{})
-	fmt.Println(an, err)
-	for _, r := range a.recs {
-		fmt.Println(r.ls, r.st, r.t, r.v, r.h)
+func zu(vs []uint64) string {
+	it := make([]string, len(vs))
+	for i, v := range vs {
+		it[i] = gallina.ZU(v)
 	}
+	return gallina.List(it)
+}
+func fbits(vs []float64) string {
+	it := make([]string, len(vs))
+	for i, v := range vs {
+		it[i] = gallina.FloatBits(v)
+	}
+	return gallina.List(it)
+}
+func spans(ss []histogram.Span) string {
+	it := make([]string, len(ss))
+	for i, s := range ss {
+		it[i] = fmt.Sprintf("mkSpan %s %s", gallina.Z(int64(s.Offset)), gallina.Z(int64(s.Length)))
+	}
+	return gallina.List(it)
+}
+func layout(ss []histogram.Span, ds []int64) string {
+	return "(" + spans(ss) + ", " + gallina.ListZ(ds) + ")"
+}
+func histTerm(h *histogram.Histogram) string {
+	return fmt.Sprintf("(mkH %s %s %s %s %s %s %s %s %s %s)", gallina.Z(int64(h.CounterResetHint)), gallina.Z(int64(h.Schema)),
+		gallina.ZU(h.ZeroCount), spans(h.PositiveSpans), gallina.ListZ(h.PositiveBuckets), spans(h.NegativeSpans), gallina.ListZ(h.NegativeBuckets),
+		gallina.FloatBits(h.Sum), gallina.ZU(h.Count), fbits(h.CustomValues))
+}
+
+// ---------- input-determined trigger of the known defect ----------
+// true iff, with scaleDown >= 1, a merged bucket that turned out empty is followed by a merged
+// bucket one of whose source buckets other than the last is non-zero (see notes/C43.md).
+func triggers(counts []uint64, off, sd int32) bool {
+	if sd < 1 || len(counts) == 0 {
+		return false
+	}
+	tg := func(i int) int32 { return (int32(i)+off)>>sd + 1 }
+	bucketIdx := tg(0)
+	var count uint64
+	for i := range counts {
+		n := tg(i)
+		if bucketIdx == n {
+			count += counts[i]
+			continue
+		}
+		if count == 0 {
+			count = counts[i]
+			continue
+		}
+		if i > 0 && tg(i-1) == n { // flushed in the middle of a merged bucket
+			return true
+		}
+		count = counts[i]
+		bucketIdx = n
+	}
+	return false
+}
+
+func overflows(n int, off int32) bool { return int64(off)+int64(n) > math.MaxInt32 }
+
+// ---------- generators ----------
+
+func genCounts(r *gen.Rand, maxLen int) []uint64 {
+	n := r.Intn(maxLen + 1)
+	cs := make([]uint64, n)
+	mode := r.Intn(6)
+	for i := 0; i < n; {
+		switch {
+		case mode == 0: // dense
+			cs[i] = uint64(r.Range(1, 9))
+			i++
+		case mode == 5 && r.Chance(1, 6): // huge values (int64 / uint64 wrap)
+			cs[i] = gen.Pick(r, []uint64{math.MaxInt64, math.MaxUint64, 1 << 63, 1<<62 + 3, math.MaxInt64 - 1})
+			i++
+		case r.Chance(1, 3): // zero run
+			k := int(r.Range(1, int64(1+r.Intn(9))))
+			for j := 0; j < k && i < n; j++ {
+				cs[i] = 0
+				i++
+			}
+		default:
+			cs[i] = uint64(r.Range(0, 12))
+			i++
+		}
+	}
+	return cs
+}
+
+func genOffset(r *gen.Rand) int32 {
+	switch r.Intn(12) {
+	case 0:
+		return int32(r.PickI64(math.MinInt32, math.MinInt32+1, math.MinInt32+7))
+	case 1:
+		return int32(r.PickI64(math.MaxInt32, math.MaxInt32-1, math.MaxInt32-3, math.MaxInt32-30))
+	case 2, 3:
+		return int32(r.Range(-3, 3))
+	default:
+		return int32(r.Range(-70, 70))
+	}
+}
+
+func genScale(r *gen.Rand) int32 {
+	return int32(r.PickI64(-6, -5, -4, -3, 0, 3, 7, 8, 9, 9, 10, 10, 11, 12, 14, 20, 40, math.MaxInt32))
+}
+
+func genTS(r *gen.Rand) uint64 {
+	switch r.Intn(10) {
+	case 0:
+		return gen.Pick(r, []uint64{0, 1, 999_999, 1_000_000, 1_000_001, 1_999_999})
+	case 1:
+		return gen.Pick(r, []uint64{math.MaxInt64, math.MaxInt64 - 1, 1 << 63, 1<<63 + 1_000_000, math.MaxUint64})
+	default:
+		return uint64(r.Range(0, 4_000_000_000_000_000_000))
+	}
+}
+
+func genFloat(r *gen.Rand) float64 {
+	switch r.Intn(8) {
+	case 0:
+		return gen.Pick(r, []float64{0, math.Copysign(0, -1), math.Inf(1), math.Inf(-1), math.NaN(), math.SmallestNonzeroFloat64, math.MaxFloat64})
+	case 1:
+		return math.Float64frombits(r.U64())
+	default:
+		return float64(r.Range(-100000, 100000)) / 8
+	}
+}
+
+// ---------- main ----------
+
+type layoutDesc struct {
+	Kind   string   `json:"kind"`
+	Counts []uint64 `json:"counts"`
+	Off    int32    `json:"offset"`
+	SD     int32    `json:"scaleDown"`
+	Adjust bool     `json:"adjustOffset"`
+	Obs    string   `json:"obs"`
+	Shape  string   `json:"shape"`
+	Corpus string   `json:"corpus,omitempty"`
+}
+type metricDesc struct {
+	Kind   string `json:"kind"`
+	Metric string `json:"metric"`
+	Obs    string `json:"obs"`
+	Shape  string `json:"shape"`
+	Replay string `json:"replay"`
+	Corpus string `json:"corpus,omitempty"`
+}
+
+func main() {
+	f := gallina.ParseFlags()
+	meta := gallina.NewMeta("C43", f.Seed, f.Tier)
+	meta.Rule = "stream L: corpus + exhaustive enumeration of bucket-count arrays over {0,1,2} (quick: length<=4, thorough: <=6) x offsets -2..1 (thorough -4..3) x scaleDown 0..2 (thorough 0..3) through the real convertBucketsLayout, plus seeded random arrays with zero runs, negative / extreme offsets, scaleDown 0..6,31,40 and both adjustOffset values; stream M: seeded random OTLP metrics (gauge, sum, histogram classic/NHCB, exponential histogram; 1-3 data points; all temporalities; flags; scales -6..MaxInt32) through the real FromMetrics. Non-trivial = L: the array is non-empty and (scaleDown>=1 or it contains a zero); M: at least one sample was appended. Distinct by printed input."
+	cf := &gallina.CaseFile{Dir: f.Out, Type: "case", PerShard: 2500,
+		Preamble: "From Coq Require Import List ZArith.\nFrom Verif Require Import lib.Int64 model.Otlp corr.CorrC43.\nImport ListNotations.\nOpen Scope Z_scope.\n",
+		Footer:   gallina.StdFooter}
+	id := 0
+	seen := map[string]bool{}
+
+	emitLayout := func(counts []uint64, off, sd int32, adjust bool, corpus string) {
+		key := fmt.Sprint("L", counts, off, sd, adjust)
+		if seen[key] {
+			return
+		}
+		seen[key] = true
+		in := append([]uint64{}, counts...)
+		ss, ds := prw.VerifConvertBucketsLayoutC43(in, off, sd, adjust)
+		class := "L-sd0"
+		if sd >= 1 {
+			class = "L-scaledown"
+		}
+		if !adjust {
+			class += "-noadjust"
+		}
+		meta.Hit(class)
+		if len(ss) > 1 {
+			meta.Hit("L-multi-span")
+		}
+		if overflows(len(counts), off) {
+			meta.Hit("L-int32-overflow")
+		}
+		hasZero := false
+		for _, c := range counts {
+			if c == 0 {
+				hasZero = true
+			}
+		}
+		if len(counts) > 0 && (sd >= 1 || hasZero) {
+			meta.Nontrivial++
+		}
+		shape := class
+		if triggers(counts, off, sd) {
+			shape = defectShape
+			meta.Hit("L-defect-trigger")
+		}
+		cf.Add(fmt.Sprintf("CLayout %s %s %s %s %s %s", gallina.Z(int64(id)), zu(counts), gallina.Z(int64(off)), gallina.Z(int64(sd)), gallina.Bool(adjust), layout(ss, ds)))
+		meta.Case(id, layoutDesc{Kind: "layout", Counts: counts, Off: off, SD: sd, Adjust: adjust, Obs: fmt.Sprint(ss, ds), Shape: shape, Corpus: corpus})
+		meta.Evaluations++
+		id++
+	}
+
+	// runMetric builds the pmetric from a closure (so that it is described and replayable from
+	// (seed, index)), runs FromMetrics and emits the case.
+	type expPt struct {
+		scale                  int32
+		zero                   uint64
+		poff, noff             int32
+		pos, neg               []uint64
+		count                  uint64
+		hasSum                 bool
+		sum                    float64
+		norec                  bool
+		ts, st                 uint64
+	}
+	type histPt struct {
+		bounds []float64
+		counts []uint64
+		count  uint64
+		hasSum bool
+		sum    float64
+		norec  bool
+		ts, st uint64
+	}
+	type numPt struct {
+		kind   int // 0 int, 1 double, 2 empty
+		iv     int64
+		dv     float64
+		norec  bool
+		ts, st uint64
+	}
+	tempTerm := func(t pmetric.AggregationTemporality) string {
+		switch t {
+		case pmetric.AggregationTemporalityDelta:
+			return "TDelta"
+		case pmetric.AggregationTemporalityCumulative:
+			return "TCumul"
+		}
+		return "TUnspec"
+	}
+	flags := func(norec bool) pmetric.DataPointFlags {
+		return pmetric.DefaultDataPointFlags.WithNoRecordedValue(norec)
+	}
+
+	emitMetric := func(kind string, temp pmetric.AggregationTemporality, allowDelta, nhcb bool, nums []numPt, hists []histPt, exps []expPt, replay, corpus string) {
+		md := pmetric.NewMetrics()
+		m := md.ResourceMetrics().AppendEmpty().ScopeMetrics().AppendEmpty().Metrics().AppendEmpty()
+		m.SetName("m")
+		var term string
+		fillNum := func(dps pmetric.NumberDataPointSlice) string {
+			it := []string{}
+			for _, p := range nums {
+				dp := dps.AppendEmpty()
+				v := "EmptyV"
+				switch p.kind {
+				case 0:
+					dp.SetIntValue(p.iv)
+					v = "(IntV " + gallina.Z(p.iv) + ")"
+				case 1:
+					dp.SetDoubleValue(p.dv)
+					v = "(DblV " + gallina.FloatBits(p.dv) + ")"
+				}
+				dp.SetFlags(flags(p.norec))
+				dp.SetTimestamp(pcommon.Timestamp(p.ts))
+				dp.SetStartTimestamp(pcommon.Timestamp(p.st))
+				it = append(it, fmt.Sprintf("mkNum %s %s %s %s", v, gallina.Bool(p.norec), gallina.ZU(p.ts), gallina.ZU(p.st)))
+			}
+			return gallina.List(it)
+		}
+		trig := false
+		switch kind {
+		case "gauge":
+			term = "MGauge " + fillNum(m.SetEmptyGauge().DataPoints())
+		case "sum":
+			s := m.SetEmptySum()
+			s.SetAggregationTemporality(temp)
+			s.SetIsMonotonic(true)
+			term = "MSum " + tempTerm(temp) + " " + fillNum(s.DataPoints())
+		case "hist":
+			h := m.SetEmptyHistogram()
+			h.SetAggregationTemporality(temp)
+			it := []string{}
+			for _, p := range hists {
+				dp := h.DataPoints().AppendEmpty()
+				dp.ExplicitBounds().FromRaw(append([]float64{}, p.bounds...))
+				dp.BucketCounts().FromRaw(append([]uint64{}, p.counts...))
+				dp.SetCount(p.count)
+				if p.hasSum {
+					dp.SetSum(p.sum)
+				}
+				dp.SetFlags(flags(p.norec))
+				dp.SetTimestamp(pcommon.Timestamp(p.ts))
+				dp.SetStartTimestamp(pcommon.Timestamp(p.st))
+				it = append(it, fmt.Sprintf("mkHist %s %s %s %s %s %s %s %s", fbits(p.bounds), zu(p.counts), gallina.ZU(p.count),
+					gallina.Bool(p.hasSum), gallina.FloatBits(p.sum), gallina.Bool(p.norec), gallina.ZU(p.ts), gallina.ZU(p.st)))
+			}
+			term = "MHist " + tempTerm(temp) + " " + gallina.List(it)
+		case "exp":
+			h := m.SetEmptyExponentialHistogram()
+			h.SetAggregationTemporality(temp)
+			it := []string{}
+			for _, p := range exps {
+				dp := h.DataPoints().AppendEmpty()
+				dp.SetScale(p.scale)
+				dp.SetZeroCount(p.zero)
+				dp.Positive().SetOffset(p.poff)
+				dp.Positive().BucketCounts().FromRaw(append([]uint64{}, p.pos...))
+				dp.Negative().SetOffset(p.noff)
+				dp.Negative().BucketCounts().FromRaw(append([]uint64{}, p.neg...))
+				dp.SetCount(p.count)
+				if p.hasSum {
+					dp.SetSum(p.sum)
+				}
+				dp.SetFlags(flags(p.norec))
+				dp.SetTimestamp(pcommon.Timestamp(p.ts))
+				dp.SetStartTimestamp(pcommon.Timestamp(p.st))
+				it = append(it, fmt.Sprintf("mkExp %s %s (mkB %s %s) (mkB %s %s) %s %s %s %s %s %s", gallina.Z(int64(p.scale)), gallina.ZU(p.zero),
+					gallina.Z(int64(p.poff)), zu(p.pos), gallina.Z(int64(p.noff)), zu(p.neg), gallina.ZU(p.count),
+					gallina.Bool(p.hasSum), gallina.FloatBits(p.sum), gallina.Bool(p.norec), gallina.ZU(p.ts), gallina.ZU(p.st)))
+				if p.scale > 8 && (triggers(p.pos, p.poff, p.scale-8) || triggers(p.neg, p.noff, p.scale-8)) {
+					trig = true
+				}
+			}
+			term = "MExp " + tempTerm(temp) + " " + gallina.List(it)
+		}
+		key := fmt.Sprint("M", term, allowDelta, nhcb)
+		if seen[key] {
+			return
+		}
+		seen[key] = true
+
+		a := &app{}
+		c := prw.NewPrometheusConverter(a)
+		annots, err := c.FromMetrics(context.Background(), md, prw.Settings{AllowDeltaTemporality: allowDelta, ConvertHistogramsToNHCB: nhcb})
+		warnEmpty, warnZC := false, false
+		for _, w := range annots {
+			switch prw.WarningCategoryOf(w) {
+			case prw.WarningCategoryEmptyDataPoints:
+				warnEmpty = true
+			case prw.WarningCategoryHistogramZeroCountNonZeroSum:
+				warnZC = true
+			default:
+				meta.GoViol = append(meta.GoViol, gallina.GoViolation{ID: strconv.Itoa(id), Shape: "unexpected-annotation", What: w.Error()})
+			}
+		}
+		it := []string{}
+		for _, r := range a.recs {
+			if r.h != nil {
+				if r.name != "m" || r.nLabels != 1 {
+					meta.GoViol = append(meta.GoViol, gallina.GoViolation{ID: strconv.Itoa(id), Shape: "histogram-series-labels", What: r.name})
+				}
+				wantZT := 1e-128
+				if r.h.Schema == histogram.CustomBucketsSchema {
+					wantZT = 0
+				}
+				if r.h.ZeroThreshold != wantZT {
+					meta.GoViol = append(meta.GoViol, gallina.GoViolation{ID: strconv.Itoa(id), Shape: "zero-threshold", What: fmt.Sprint(r.h.ZeroThreshold)})
+				}
+				it = append(it, fmt.Sprintf("Hist %s %s %s", gallina.Z(r.st), gallina.Z(r.t), histTerm(r.h)))
+				continue
+			}
+			series := "(SBucket (-7))" // unknown series: never equals the model
+			switch {
+			case r.name == "m" && !r.hasLe && r.nLabels == 1:
+				series = "SPlain"
+			case r.name == "m_sum" && !r.hasLe && r.nLabels == 1:
+				series = "SSum"
+			case r.name == "m_count" && !r.hasLe && r.nLabels == 1:
+				series = "SCount"
+			case r.name == "m_bucket" && r.hasLe && r.nLabels == 2:
+				if r.le == "+Inf" {
+					series = "(SBucket " + gallina.FloatBits(math.Inf(1)) + ")"
+				} else if b, e := strconv.ParseFloat(r.le, 64); e == nil {
+					series = "(SBucket " + gallina.FloatBits(b) + ")"
+				}
+			}
+			it = append(it, fmt.Sprintf("Float %s %s %s %s", series, gallina.Z(r.st), gallina.Z(r.t), gallina.FloatBits(r.v)))
+		}
+		obs := fmt.Sprintf("(mkRes %s %s %s %s)", gallina.List(it), gallina.Bool(err != nil), gallina.Bool(warnEmpty), gallina.Bool(warnZC))
+		class := "M-" + kind
+		if kind == "hist" && nhcb {
+			class = "M-nhcb"
+		}
+		meta.Hit(class)
+		if kind != "gauge" {
+			meta.Hit("M-temp-" + tempTerm(temp) + fmt.Sprintf("-allow=%v", allowDelta))
+		}
+		if err != nil {
+			meta.Hit("M-error")
+		}
+		if len(a.recs) > 0 {
+			meta.Nontrivial++
+		}
+		shape := class
+		if trig {
+			shape = defectShape
+			meta.Hit("M-defect-trigger")
+		}
+		cf.Add(fmt.Sprintf("CMetric %s (mkSet %s %s) (%s) %s", gallina.Z(int64(id)), gallina.Bool(allowDelta), gallina.Bool(nhcb), term, obs))
+		obsS := strings.Join(it, "; ")
+		if len(obsS) > 600 {
+			obsS = obsS[:600] + "..."
+		}
+		meta.Case(id, metricDesc{Kind: "metric", Metric: term, Obs: obsS, Shape: shape, Replay: replay, Corpus: corpus})
+		meta.Evaluations++
+		id++
+	}
+
+	cum := pmetric.AggregationTemporalityCumulative
+	// ---- corpus: reproducers of the confirmed defect and its neighbours, always first ----
+	emitLayout([]uint64{0, 0, 5, 7}, 0, 1, true, "defect-leading-empty-target")
+	emitLayout([]uint64{1, 0, 0, 0, 5, 7}, 0, 1, true, "defect-interior-empty-target")
+	emitLayout([]uint64{0, 0, 0, 0, 5, 7}, 0, 1, true, "defect-two-empty-targets")
+	emitLayout([]uint64{0, 0, 0, 0, 3, 0, 4, 5}, 0, 2, true, "defect-scaledown-2")
+	emitLayout([]uint64{0, 0, 5, 7}, 0, 0, true, "no-scaledown")
+	emitLayout([]uint64{0, 0, 0, 7}, 0, 1, true, "nonzero-only-in-last-source")
+	emitLayout([]uint64{4, 2, 0, 2, 0, 0, 0, 0, 0, 0, 0, 0, 0, 0, 0, 0, 1}, 4, 1, true, "upstream-test-positive-offset")
+	emitLayout([]uint64{0, 0, 0, 0, 5}, 0, 0, true, "leading-zero-length-span")
+	emitLayout([]uint64{3, 0, 0, 9}, 2, 0, false, "custom-buckets")
+	emitMetric("exp", cum, false, false, nil, nil, []expPt{{scale: 9, pos: []uint64{0, 0, 5, 7}, count: 12, hasSum: true, sum: 100, ts: 5_000_000}}, "corpus", "defect-public-path")
+	emitMetric("exp", cum, false, false, nil, nil, []expPt{{scale: 10, neg: []uint64{0, 0, 0, 0, 3, 0, 4, 5}, noff: -8, count: 12, ts: 5_000_000}}, "corpus", "defect-public-path-negative")
+	emitMetric("exp", cum, false, false, nil, nil, []expPt{{scale: 8, pos: []uint64{0, 0, 5, 7}, count: 12, ts: 5_000_000}}, "corpus", "max-scale-no-merge")
+
+	// ---- stream L: exhaustive small arrays ----
+	maxLen, offLo, offHi, sdHi := 4, int32(-2), int32(1), int32(2)
+	if f.Tier == "thorough" {
+		maxLen, offLo, offHi, sdHi = 6, -4, 3, 3
+	}
+	var rec func(cur []uint64)
+	rec = func(cur []uint64) {
+		if len(cur) > 0 {
+			for off := offLo; off <= offHi; off++ {
+				for sd := int32(0); sd <= sdHi; sd++ {
+					emitLayout(cur, off, sd, true, "")
+				}
+			}
+			emitLayout(cur, int32(len(cur)%3), 0, false, "")
+		}
+		if len(cur) == maxLen {
+			return
+		}
+		for v := uint64(0); v <= 2; v++ {
+			rec(append(append([]uint64{}, cur...), v))
+		}
+	}
+	rec(nil)
+
+	// ---- stream L: seeded random ----
+	nL := f.Count(900, 40000)
+	for i := 0; i < nL; i++ {
+		r := gen.Fork(f.Seed, i)
+		cs := genCounts(r, 40)
+		off := genOffset(r)
+		sd := int32(r.PickI64(0, 1, 1, 1, 2, 2, 3, 4, 5, 6, 31, 40))
+		adjust := !r.Chance(1, 6)
+		if !adjust && !r.Chance(1, 5) {
+			sd = 0
+		}
+		emitLayout(cs, off, sd, adjust, "")
+	}
+
+	// ---- stream M: seeded random metrics ----
+	nM := f.Count(450, 30000)
+	for i := 0; i < nM; i++ {
+		r := gen.Fork(f.Seed, 1_000_000+i)
+		replay := fmt.Sprintf("seed=%d index=%d", f.Seed, 1_000_000+i)
+		temp := gen.Pick(r, []pmetric.AggregationTemporality{cum, cum, cum, pmetric.AggregationTemporalityDelta, pmetric.AggregationTemporalityDelta, pmetric.AggregationTemporalityUnspecified})
+		allowDelta := r.Bool()
+		npts := 1 + r.Intn(3)
+		if r.Chance(1, 25) {
+			npts = 0
+		}
+		switch k := r.Intn(10); {
+		case k < 2: // gauge / sum
+			var nums []numPt
+			for j := 0; j < npts; j++ {
+				p := numPt{kind: r.Intn(3), norec: r.Chance(1, 5), ts: genTS(r), st: genTS(r)}
+				if r.Chance(1, 3) {
+					p.kind = 0
+				}
+				p.iv = r.PickI64(0, 1, -1, 1<<53, 1<<53+1, 1<<53+3, -(1<<53 + 1), math.MaxInt64, math.MinInt64, math.MaxInt64-511, 1<<62+1, r.Range(-1000, 1000), int64(r.U64()), int64(r.U64()>>8))
+				p.dv = genFloat(r)
+				nums = append(nums, p)
+			}
+			kind := "gauge"
+			if r.Bool() {
+				kind = "sum"
+			}
+			emitMetric(kind, temp, allowDelta, false, nums, nil, nil, replay, "")
+		case k < 5: // explicit histogram, classic or NHCB
+			var hs []histPt
+			for j := 0; j < npts; j++ {
+				nb := r.Intn(8)
+				bounds := make([]float64, nb)
+				b := float64(r.Range(-40, 40)) / 4
+				for x := range bounds {
+					bounds[x] = b
+					b += float64(r.Range(1, 40)) / 8
+					if r.Chance(1, 15) {
+						b *= 1e12
+					}
+				}
+				nc := nb + 1
+				switch r.Intn(8) {
+				case 0:
+					nc = nb
+				case 1:
+					nc = nb + 2
+				case 2:
+					nc = 0
+				}
+				cs := make([]uint64, nc)
+				var tot uint64
+				for x := range cs {
+					if !r.Chance(1, 3) {
+						cs[x] = uint64(r.Range(0, 20))
+					}
+					if r.Chance(1, 40) {
+						cs[x] = gen.Pick(r, []uint64{1 << 53, 1<<53 + 1, math.MaxInt64, math.MaxUint64, 1 << 63})
+					}
+					tot += cs[x]
+				}
+				if r.Chance(1, 4) { // all-zero / long leading zero run
+					for x := 0; x < len(cs)-r.Intn(2); x++ {
+						cs[x] = 0
+					}
+				}
+				p := histPt{bounds: bounds, counts: cs, count: tot, hasSum: !r.Chance(1, 4), sum: genFloat(r), norec: r.Chance(1, 6), ts: genTS(r), st: genTS(r)}
+				if r.Chance(1, 6) {
+					p.count = uint64(r.PickI64(0, 0, 7, 1<<53+1, math.MaxInt64))
+				}
+				hs = append(hs, p)
+			}
+			emitMetric("hist", temp, allowDelta, r.Chance(3, 5), nil, hs, nil, replay, "")
+		default: // exponential histogram
+			var es []expPt
+			for j := 0; j < npts; j++ {
+				p := expPt{scale: genScale(r), zero: uint64(r.Range(0, 5)), poff: genOffset(r), noff: genOffset(r),
+					pos: genCounts(r, 28), neg: genCounts(r, 12), hasSum: !r.Chance(1, 4), sum: genFloat(r), norec: r.Chance(1, 8), ts: genTS(r), st: genTS(r)}
+				if r.Chance(1, 2) {
+					p.neg = nil
+				}
+				if r.Chance(2, 3) { // favour scales around and above the maximum
+					p.scale = int32(r.PickI64(8, 9, 9, 10, 10, 11, 12))
+				}
+				for _, c := range p.pos {
+					p.count += c
+				}
+				for _, c := range p.neg {
+					p.count += c
+				}
+				p.count += p.zero
+				if r.Chance(1, 8) {
+					p.count = 0
+				}
+				es = append(es, p)
+			}
+			emitMetric("exp", temp, allowDelta, r.Bool(), nil, nil, es, replay, "")
+		}
+	}
+	cf.Flush()
+	meta.Write(f.Out)
 }
